@@ -33,6 +33,45 @@ def _corpus_case(case):
     return o
 
 
+def _api_case(case):
+    """the same truthfulness through the API: fix_path(directory).files_fixed and fix_string(...).was_fixed, both return-code schemes"""
+    import shutil
+    import tempfile
+    _mode, paths, scheme = case
+    from pymarkdown.api import PyMarkdownApi, PyMarkdownApiException
+    base = tempfile.mkdtemp(prefix="vha-", dir="/dev/shm" if os.path.isdir("/dev/shm") else None)
+    out = {"scheme": scheme}
+    try:
+        files = [("d%02d_%s" % (i, os.path.basename(p)), corpus.read(p)) for i, p in enumerate(paths)]
+        for n, data in files:
+            with open(os.path.join(base, n), "wb") as f:
+                f.write(data)
+
+        def api():
+            a = PyMarkdownApi()
+            return a.set_string_property("mode.return_code_scheme", "minimal") if scheme == "minimal" else a
+        try:
+            r = api().fix_path(base)
+            changed = []
+            for n, data in files:
+                with open(os.path.join(base, n), "rb") as f:
+                    if f.read() != data:
+                        changed.append(n)
+            out["path"] = {"reported": sorted(os.path.basename(x) for x in r.files_fixed), "changed": sorted(changed)}
+        except PyMarkdownApiException as ex:
+            out["path"] = {"error": type(ex).__name__}
+        try:
+            text = files[0][1].decode("utf-8")
+            if text.strip():
+                r2 = api().fix_string(text)
+                out["string"] = {"was_fixed": bool(r2.was_fixed), "differs": r2.fixed_file != text}
+        except (PyMarkdownApiException, UnicodeDecodeError) as ex:
+            out["string"] = {"error": type(ex).__name__}
+    finally:
+        shutil.rmtree(base, ignore_errors=True)
+    return out
+
+
 def run(pid, tier):
     ctx = Ctx(pid, tier, "model_checking")
     appcommon.model_check(ctx)
@@ -78,6 +117,17 @@ def run(pid, tier):
                 shape = "empty-file" if not corpus.read(src) else os.path.basename(src)
                 ctx.violation("corpus:changed-without-fixable-failure:%s:%s" % (shape, "+".join(rl or ["none"])),
                               {"file": src, "rules_reported_by_scan": rl, "argv": o["argv"]})
+    # ---- the API's fix results for the same sets (every third set, alternating schemes)
+    acases = [("api", paths, "minimal" if k % 2 else "default") for k, (mode, paths, _s) in enumerate(c for c in cases if c[0] == "fix") if k % 3 != 2]
+    ares = impl.pmap(_api_case, acases, procs=16)
+    for (_m, paths, scheme), o in zip(acases, ares):
+        pth, st = o.get("path") or {}, o.get("string") or {}
+        if "reported" in pth and pth["reported"] != pth["changed"]:
+            ctx.violation("api:files_fixed-vs-changed:%s" % scheme, {"files": paths, "scheme": scheme, "files_fixed": pth["reported"], "changed_on_disk": pth["changed"]})
+        if "was_fixed" in st and st["was_fixed"] != st["differs"]:
+            ctx.violation("api:was_fixed-vs-text:%s" % scheme, {"file": paths[0], "scheme": scheme, "was_fixed": st["was_fixed"], "text_differs": st["differs"]})
+    ctx.ev.cov["evaluations"] += len(acases)
+    ctx.ev.parts["api_fix_runs"] = len(acases)
     tr, verdicts = appscen.validate_traces(ctraces, "corpus")
     ctx.ev.add_tlc("Trace_App (%d corpus runs)" % len(ctraces), tr)
     ctx.ev.cov["traces_validated_against_impl"] += len(ctraces)
